@@ -225,7 +225,8 @@ Print Assumptions typst_tokens_normal.
    okf; on that domain the float printer prints only digits, '.' and '-' and is injective (the
    shortest-round-trip contract of f64::to_string on the numbers of [0,1]; distinct bit patterns --
    so 0.0 and -0.0, which f64 == identifies, are DIFFERENT values here and do render differently:
-   known class K7 concerns `equal values render identically`, not this theorem).
+   the 0.0 / -0.0 observation (== identifies them, Display does not) concerns `equal values render identically` for
+   ill-formed numbers: -0.0 is negative-signed, hence outside well-formedness; not this theorem).
    Two well-formed values -- term, sentence or task -- with the same rendering are the same value. *)
 Theorem typst_value_injective : forall (to_debug : str -> str),
   (forall n, only_sp (to_debug n) = true) ->
